@@ -100,13 +100,26 @@ def clone_content(content):
 
     def walk(p):
         if isinstance(p, F.Cont):
+            p.group = None                     # a named group is referenced once
             for k in p.kids:
                 walk(k)
-        elif isinstance(p, F.Elem) and p.tref[0] == "n" and p.tref[1] >= HID:
-            p.tref = ("b", "string")
+        elif isinstance(p, F.Elem):
+            p.ref = False
+            if p.tref[0] == "n" and p.tref[1] >= HID:
+                p.tref = ("b", "string")
     for p in c:
         walk(p)
     return c
+
+
+def group_elem_names(S):
+    """names of the elements declared inside named groups (ElementQuery's deep search reaches
+    them through the group definition, which the model does not represent)"""
+    out = set()
+    for (t, c) in all_conts(S):
+        if getattr(c, "group", None):
+            out.update(e.name for e in leaf_elems(c))
+    return out
 
 
 def related(S, a, b):
@@ -139,10 +152,22 @@ def add_shapes(rng, S):
               [F.Attr("unit", "string", default="adef")])
     P = ("n", point.ns, point.name)
     seg = T("Segment", lambda ns: [E("start", ns, P), E("end", ns, P)], [])
+    def grouped(cont, name):
+        cont.group = name
+        return cont
+
+    # the choice has simple branches and COMPOUND ones: a nested sequence, a nested all, a group ref
     shape = T("Shape", lambda ns: [E("id", ns, ("b", "int")),
                                    F.Cont("choice", False, [E("circle", ns, ("b", "int")),
                                                             E("square", ns, ("b", "string")),
-                                                            E("pt", ns, P)]),
+                                                            E("pt", ns, P),
+                                                            F.Cont("sequence", False, [E("w", ns, ("b", "int")),
+                                                                                       E("h", ns, P)]),
+                                                            F.Cont("all", False, [E("rx", ns, ("b", "int"))]),
+                                                            grouped(F.Cont("sequence", False,
+                                                                           [E("gw", ns, ("b", "int")),
+                                                                            E("gh", ns, ("b", "int"))]),
+                                                                    "GShape")]),
                                    E("label", ns, ("b", "string"))],
               [F.Attr("unit", "string", default="adef")])
     T("Drawing", lambda ns: [E("seg", ns, ("n", seg.ns, seg.name)), E("shape", ns, ("n", shape.ns, shape.name)),
@@ -150,8 +175,18 @@ def add_shapes(rng, S):
     addr = T("Address", lambda ns: [E("street", ns, ("b", "string")), E("city", ns, ("b", "string"))],
              [F.Attr("kind", "string")])
     cust = T("Customer", lambda ns: [E("name", ns, ("b", "string")), E("address", ns, ("n", addr.ns, addr.name))], [])
-    T("Order", lambda ns: [E("customer", ns, ("n", cust.ns, cust.name)), E("total", ns, ("b", "decimal"))],
-      [F.Attr("ref", "string", required=True)])
+    money = T("Money", lambda ns: [], [F.Attr("cur", "string", default="adef"), F.Attr("exact", "boolean")])
+    money.content = []
+    money.simple_base = "decimal"                       # <simpleContent><extension base="xsd:decimal">
+    nns_ = rng.randrange(nns)
+    S.gelems.append(GElem("note", nns_, ("b", "string")))
+
+    def order_kids(ns):
+        r = F.Elem("note", nns_, True, ("b", "string"), opt=True)      # <xsd:element ref="..:note" minOccurs="0"/>
+        r.pinned = True
+        r.ref = True
+        return [E("customer", ns, ("n", cust.ns, cust.name)), E("total", ns, ("n", money.ns, money.name)), r]
+    T("Order", order_kids, [F.Attr("ref", "string", required=True)])
 
 
 def gen_interface(rng):
@@ -210,6 +245,39 @@ def gen_interface(rng):
                 ea.name = eb.name
                 feats.add("same-name-in-two-types")
                 break
+    # simpleContent types (extension of a built-in by attributes; without attributes: no members at all)
+    for k in range(rng.choice([0, 0, 1, 2])):
+        attrs = [F.Attr("m%d%d" % (k, j), rng.choice(["string", "int"]), default=rng.choice([None, "adef"]))
+                 for j in range(rng.choice([0, 1, 1, 2]))]
+        mt = F.CType("M%d" % k, rng.randrange(nns), None, [], attrs)
+        mt.simple_base = rng.choice(["string", "decimal", "int"])
+        S.types.append(mt)
+        cands = [x for x in elems if x[2].default is None and x[2].tref[0] == "b"]
+        for (t, c, e) in rng.sample(cands, min(len(cands), rng.choice([1, 2]))):
+            e.tref = ("n", mt.ns, mt.name)
+            if rng.random() < 0.6:
+                e.opt = False
+                if c.kind != "all":
+                    e.multi = False
+        feats.add("simpleContent-type" if attrs else "simpleContent-type-without-attributes")
+    # <element ref=".."/> members: the member takes name, namespace and type of a global element
+    S.refcount = 0
+    for (t, c, e) in elems:
+        if e.default is None and rng.random() < 0.08 and not (e.tref[0] == "n" and e.tref[1] >= HID):
+            gns = rng.randrange(nns)
+            gname = "r%d" % S.refcount
+            S.refcount += 1
+            S.gelems.append(GElem(gname, gns, e.tref))
+            e.name, e.ns, e.qualified, e.nillable, e.ref = gname, gns, True, False, True
+            feats.add("element-ref")
+    # named groups, each referenced once: <xsd:group ref=".."/> in place of a nested container
+    conts = [c for (t, c) in all_conts(S)]
+    for k in range(rng.choice([0, 0, 1, 2])):
+        if conts:
+            c = rng.choice(conts)
+            if not getattr(c, "group", None):
+                c.group = "G%d" % k
+                feats.add("group-ref")
     add_shapes(rng, S)
     feats.add("fixed-shapes")
     # anonymous complex types: a local or global element carrying its own <complexType>
@@ -219,7 +287,7 @@ def gen_interface(rng):
         for _ in range(rng.choice([1, 2])):
             src = rng.choice(S.visible)
             cands = [x for x in all_elems(S) if x[2].default is None and x[0].ns < HID
-                     and not getattr(x[2], "pinned", False)]
+                     and not getattr(x[2], "pinned", False) and not getattr(x[2], "ref", False)]
             if not cands:
                 break
             (t, c, e) = rng.choice(cands)
@@ -290,6 +358,8 @@ class Renderer3(F.Renderer):
             elif r.random() < 0.15:
                 occ += ' maxOccurs="1"'
             self.occ[id(e)] = occ
+        if getattr(e, "ref", False):
+            return '%s<xsd:element ref="%s:%s"%s/>' % (indent, self.prefixes[e.ns], e.name, occ)
         if e.tref[0] == "n" and e.tref[1] >= HID:
             a = ' name="%s"%s%s' % (e.name, occ, ' nillable="true"' if e.nillable else "")
             if e.qualified != self.S.namespaces[declaring_ns][1]:
@@ -304,6 +374,26 @@ class Renderer3(F.Renderer):
         if e.qualified != self.S.namespaces[declaring_ns][1]:
             a += ' form="%s"' % ("qualified" if e.qualified else "unqualified")
         return "%s<xsd:element%s/>" % (indent, a)
+
+    def particle(self, p, ns, indent, _level=0):
+        g = getattr(p, "group", None) if isinstance(p, F.Cont) else None
+        if g:
+            inner = copy.copy(p)
+            inner.group, inner.opt = None, False
+            body = F.Renderer.particle(self, inner, ns, "        ", 0)
+            self._group_defs.setdefault(ns, []).append(
+                '      <xsd:group name="%s">\n%s\n      </xsd:group>' % (g, body))
+            return '%s<xsd:group ref="%s:%s"%s/>' % (indent, self.prefixes[ns], g, ' minOccurs="0"' if p.opt else "")
+        return F.Renderer.particle(self, p, ns, indent, _level)
+
+    def ctype(self, t, indent="      "):
+        base = getattr(t, "simple_base", None)
+        if base:
+            attrs = "\n".join(self.attr(a, indent + "      ") for a in t.attrs)
+            return ('%s<xsd:complexType name="%s">\n%s  <xsd:simpleContent>\n%s    <xsd:extension base="xsd:%s">\n'
+                    '%s\n%s    </xsd:extension>\n%s  </xsd:simpleContent>\n%s</xsd:complexType>'
+                    % (indent, t.name, indent, indent, base, attrs, indent, indent, indent))
+        return F.Renderer.ctype(self, t, indent)
 
     def anon(self, h, real_ns, indent):
         t2 = copy.copy(h)
@@ -380,7 +470,19 @@ def schema_names(S):
     return sorted(names)
 
 
-def wsdl_literal(S, R, I):
+def schema_all(client, S):
+    """the named complex types in suds' schema.all (what the schema blocks after the first one
+    contributed to the merged schema, in merge order), as abstract (namespace index, name)"""
+    from suds.xsd.sxbasic import Complex
+    uri_ix = dict((u, i) for i, (u, _) in enumerate(S.namespaces))
+    out = []
+    for x in client.wsdl.schema.all:
+        if type(x) is Complex and x.name is not None and x.qname[1] in uri_ix:
+            out.append((uri_ix[x.qname[1]], x.name))
+    return out
+
+
+def wsdl_literal(S, R, I, client=None):
     P = F.CoqPrinter(S, I)
     for n in schema_names(S):
         I(n)
@@ -393,7 +495,12 @@ def wsdl_literal(S, R, I):
     uris = clist(["(%s, %s)" % (cstr(u), cN(i + 1)) for i, (u, _) in enumerate(S.namespaces)], "str * N")
     names = clist(["(%s, %s)" % (cstr(n), cN(I(n))) for n in schema_names(S)] +
                   ["(%s, %s)" % (cstr("value"), cN(4))], "str * N")
-    return "(mkWsdl %s %s %s %s %s %s %s)" % (types, simples, elems, cstr(S.namespaces[0][0]), prefixes, uris, names)
+    mixed = clist(["(%s, %s)" % (cN(t.ns + 1), cN(I(t.name))) for t in S.types if getattr(t, "simple_base", None)],
+                  "N * N")
+    allq = clist(["(%s, %s)" % (cN(ns + 1), cN(I(n))) for ns, n in (schema_all(client, S) if client else [])],
+                 "N * N")
+    return "(mkWsdl %s %s %s %s %s %s %s %s %s)" % (types, simples, elems, cstr(S.namespaces[0][0]), prefixes, uris,
+                                                    names, mixed, allq)
 
 
 class Sp(object):
@@ -574,6 +681,18 @@ def gen_spellings(rng, S, R, thorough):
             for sp in root_forms(rng, S, R, t.ns, t.name, all_forms=pinned or thorough):
                 sp = sp.with_members(w)
                 out.append((sp.text(), sp, "deep-path-%d%s" % (len(w) + 1, "-attr" if w[-1][1] else "")))
+    # 2c. local element names spelled WITHOUT their path (ElementQuery's deep search; no claim)
+    gnames = group_elem_names(S)
+    local = [(t, e) for (t, c, e) in all_elems(S) if t.ns < HID and e.name not in gnames
+             and not getattr(e, "ref", False)]
+    for (t, e) in (local if thorough else rng.sample(local, min(len(local), 14))):
+        for sp in root_forms(rng, S, R, t.ns, e.name, all_forms=thorough):
+            out.append((sp.text(), sp, "local-name-without-path"))
+        if e.tref[0] == "n" and S.type(e.tref[1], e.tref[2]) is not None:
+            inner = [q.name for q, _ in S.flat(S.type(e.tref[1], e.tref[2])) if isinstance(q, F.Elem)][:1]
+            for m in inner + ["bogus"]:
+                sp = rng.choice(root_forms(rng, S, R, t.ns, e.name)).with_members([(None, False, m)])
+                out.append((sp.text(), sp, "local-name-without-path"))
     # 3. enumeration values by path (no claim) and members of simple things
     for s in S.simples:
         for v in s.vals[:2]:
@@ -810,7 +929,7 @@ def run(ck):
                              {"wsdl": wsdl.decode("utf-8"), "error": repr(e)})
             continue
         I = new_interner()
-        wlit = wsdl_literal(S, R, I)
+        wlit = wsdl_literal(S, R, I, client)
         wname = "W%d" % si
         known_names = set(schema_names(S)) | {"value"}
         for f in S.feats:
@@ -1058,8 +1177,8 @@ def reaches_wildcard(S, t):
         if id(x) in seen:
             continue
         seen.add(id(x))
-        if shadowed(S, x) or x.ns >= HID:
-            return True                       # factory.create cannot name the type
+        if shadowed(S, x) or x.ns >= HID or getattr(x, "simple_base", None):
+            return True                       # factory.create cannot name the type / a Property has no dict form
         for p, _ in S.flat(x):
             if isinstance(p, F.Any):
                 return True
